@@ -8,6 +8,7 @@ sys.path.insert(0, os.path.dirname(os.path.abspath(__file__)))
 from common import BUILD_DIR  # noqa: E402
 
 RULES = {
+    "str": "regression witnesses + generated STR (w=2) and STRx (w=4) tables: 0..8 data strings (duplicates, empty strings), 0..7 ids with offsets shared / unsorted / interior / on a NUL / (non-well-formed stream: into the header, past the end, dangling), unreferenced data entries, the empty table; requests: empty, duplicates, already present, suffix/prefix of an existing string, the empty string, long strings crossing the u16 limit; every case through the real editor and the Lean driver (op addstr/tostrx), ids resolved by an independent offset reader; distinct_nontrivial = distinct op lines",
     "trig": "for every type in the specification table (51 actions, 22 conditions): N sentinel records (quick 4, thorough 24 variants) with a distinct value in every field (valid member / valid id where the field's codec needs one, defined flag bits in the flags byte) decoded by the registered real transcoder with a sentinel context, observed argument<-field relation compared with the specification and with the generated row; encode back compared field by field; plus every enum member (quick: <=40 per large enum) of every enum-typed argument through decode and encode; distinct_nontrivial = distinct (type, record) pairs",
     "codecs": "exhaustive domains: all 256 values of the two trigger flag bytes, the 16-bit flag words (thorough: all 65536 per codec; quick: 4096 low + 4096 random + boundaries), all 2^k rich flag values per codec, every enum over [0,1024) (thorough [0,65536)) plus every member and neighbours and width boundaries, AI tags: every known tag, its case variants and near misses, each UTF-8 length pattern, each invalid pattern, random tags; hit points [0,2^14) (thorough [0,2^20)), all 2^k and 2^k+-1, stratified random u32; decimal hit points with 0..4 decimals; CUWP flag words through the UPRP section transcoder.  Each value goes through the real helper and the Lean driver; distinct_nontrivial counts distinct (op, value) pairs",
     "bytelayer": "cases = regression corpus + fixture CHKs + generated chunk lists (names: registered/enum-only/ASCII/multi-byte UTF-8/invalid UTF-8; recognised payloads at every legal size with edge-heavy, random and sentinel bytes; STR tables with shared/unsorted/interior/dangling offsets and trailing empty strings) + for C19 a malformed stream (random, truncations at and around chunk boundaries, single-byte corruptions, oversize size fields, short/long fixed sections, non-7-bit string bytes); each case is run through the real ChkIo and the Lean driver (ops rt, dec) and the property oracle; distinct_nontrivial = number of distinct (tag, input bytes) pairs",
@@ -45,6 +46,11 @@ def main():
 
         out = generic(trig_h, prop, tier, seed, replay)
         rule = RULES["trig"]
+    elif prop == "C08":
+        import str_h
+
+        out = generic(str_h, prop, tier, seed, replay)
+        rule = RULES["str"]
     elif prop == "C12":
         import codecs_h
 
